@@ -4,4 +4,4 @@ From C28 Require Import Model.
 Extraction "model.ml" drv_b2n drv_n2b drv_z_of_n drv_n_of_z drv_nat_of_n drv_n_of_nat
   fixed prefix mkCfg run check step_ok track ghost0 align_up zero_mem rsz order_of_size exempt is_live_ptr
   check_uncond uncond_ok is_call is_err max_wasm_pages
-  nil_marker header_size num_orders min_alloc max_alloc page_size.
+  nil_marker header_size num_orders min_alloc max_alloc page_size encode_header occ_mask.
